@@ -115,6 +115,10 @@ type httpSpec struct {
 	cl      string // "-" = header absent
 	nilBody bool
 	body    []byte
+	// rcl: what net/http puts into Request.ContentLength, when it is NOT what the Content-Length header says: ""
+	// = as httptest computes it (the body length); "-1" = unknown (a chunked request: the server deletes the
+	// header); any other number = a length that disagrees with the header field.
+	rcl string
 }
 
 func (sp httpSpec) line() string {
@@ -122,11 +126,19 @@ func (sp httpSpec) line() string {
 	if sp.nilBody {
 		nb = "nil"
 	}
-	return fmt.Sprintf("#http %s %s %s %s %s", sp.method, hexUp([]byte(sp.ct)), hexUp([]byte(sp.cl)), nb, hexUp(sp.body))
+	l := fmt.Sprintf("#http %s %s %s %s %s", sp.method, hexUp([]byte(sp.ct)), hexUp([]byte(sp.cl)), nb, hexUp(sp.body))
+	if sp.rcl != "" {
+		l += " rcl=" + sp.rcl
+	}
+	return l
 }
 
 func parseHTTPSpec(l string) (httpSpec, bool) {
 	f := strings.Fields(l)
+	rcl := ""
+	if len(f) == 7 && strings.HasPrefix(f[6], "rcl=") {
+		rcl, f = strings.TrimPrefix(f[6], "rcl="), f[:6]
+	}
 	if len(f) != 6 || f[0] != "#http" {
 		return httpSpec{}, false
 	}
@@ -136,7 +148,7 @@ func parseHTTPSpec(l string) (httpSpec, bool) {
 	if e1 != nil || e2 != nil || e3 != nil {
 		return httpSpec{}, false
 	}
-	return httpSpec{method: f[1], ct: string(ct), cl: string(cl), nilBody: f[4] == "nil", body: body}, true
+	return httpSpec{method: f[1], ct: string(ct), cl: string(cl), nilBody: f[4] == "nil", body: body, rcl: rcl}, true
 }
 
 // the body limit of the handler (an exported constant of the library: followed, not duplicated)
@@ -167,6 +179,14 @@ func httpServe(sp httpSpec) httpObs {
 	if sp.nilBody {
 		req.Body = nil
 	}
+	if sp.rcl != "" {
+		if n, err := strconv.ParseInt(sp.rcl, 10, 64); err == nil {
+			req.ContentLength = n
+			if n < 0 {
+				req.TransferEncoding = []string{"chunked"}
+			}
+		}
+	}
 	rec := httptest.NewRecorder()
 	_, p := guard("ServeHTTP", func() int { hdl.ServeHTTP(rec, req); return 0 })
 	o := httpObs{panicked: p, code: rec.Code, body: rec.Body.Bytes(), calls: h.calls, modified: !bytes.Equal(in, sp.body)}
@@ -181,7 +201,7 @@ func httpServe(sp httpSpec) httpObs {
 // the body length and within the limit): the decoder of that content type must get exactly the body. Every other
 // envelope is only required not to panic — what the handler makes of it is not C02's business.
 func httpEffective(sp httpSpec) (c *httpCodec, eff []byte, ok bool) {
-	if sp.method != http.MethodPost || sp.nilBody {
+	if sp.method != http.MethodPost || sp.nilBody || sp.rcl != "" {
 		return nil, nil, false
 	}
 	c = httpCodecFor(sp.ct)
@@ -289,6 +309,15 @@ func httpEnvelopes(r *rng.R, ct string, body []byte, all bool) []httpSpec {
 		{method: "POST", ct: ct + "; charset=utf-8", cl: exact, body: body},
 		{method: "POST", ct: strings.ToUpper(ct), cl: exact, body: body},
 		{method: "POST", ct: "text/plain", cl: exact, body: body},
+		// what a real net/http server hands over for a chunked request (no Content-Length header, length unknown),
+		// and requests whose ContentLength field disagrees with the header the handler may look at
+		{method: "POST", ct: ct, cl: "-", body: body, rcl: "-1"},
+		{method: "POST", ct: ct, cl: exact, body: body, rcl: "-1"},
+		{method: "POST", ct: ct, cl: exact, body: body, rcl: "0"},
+		{method: "POST", ct: ct, cl: "0", body: body, rcl: strconv.Itoa(len(body))},
+		{method: "POST", ct: ct, cl: exact, body: body, rcl: strconv.Itoa(len(body) + 1)},
+		{method: "POST", ct: ct, cl: exact, body: body, rcl: "9223372036854775807"},
+		{method: "POST", ct: ct, cl: "-", body: nil, rcl: "-1"},
 	}
 	if all {
 		return append(out, alts...)
@@ -1365,7 +1394,13 @@ func deepRun(d deepSpec) (res string) {
 func hostileChildMain() {
 	out := bufio.NewWriter(os.Stdout)
 	sc := bufio.NewScanner(os.Stdin)
+	sc.Buffer(make([]byte, 1<<16), 1<<23)
 	for sc.Scan() {
+		if a := loopChild(sc.Text()); a != nil {
+			fmt.Fprintln(out, *a)
+			out.Flush()
+			continue
+		}
 		d, ok := parseDeepSpec(sc.Text())
 		if !ok {
 			fmt.Fprintln(out, "bad-spec")
@@ -1849,11 +1884,18 @@ func runHostile(ctx *Ctx) {
 	if len(ctx.Replay) > 0 {
 		var a32 []arch32Case
 		var deep []deepSpec
+		var loops []loopCase
 		for _, l := range ctx.Replay {
 			switch {
 			case strings.HasPrefix(l, "#http "):
 				if sp, ok := parseHTTPSpec(l); ok {
 					httpCase(ctx, sp, "replay")
+				}
+			case strings.HasPrefix(l, "#loop "):
+				if f := strings.Fields(l); len(f) == 3 {
+					if b, err := hexDecode(f[2]); err == nil {
+						loops = append(loops, loopCase{f[1], b, ""})
+					}
 				}
 			case strings.HasPrefix(l, "#deep "):
 				if d, ok := parseDeepSpec(strings.TrimPrefix(l, "#deep ")); ok {
@@ -1880,6 +1922,9 @@ func runHostile(ctx *Ctx) {
 		if len(deep) > 0 {
 			runDeep(ctx, deep)
 		}
+		if len(loops) > 0 {
+			runLoops(ctx, loops)
+		}
 		if len(a32) > 0 {
 			runArch32(ctx, a32)
 		}
@@ -1897,6 +1942,7 @@ func runHostile(ctx *Ctx) {
 	phase("shapes", func() { runShapes(ctx) })
 	phase("typed", func() { runTyped(ctx) })
 	phase("deep", func() { runDeep(ctx, deepSpecs(ctx.Thor)) })
+	phase("loop", func() { runLoops(ctx, nil) })
 	phase("arch32", func() { runArch32(ctx, nil) })
 }
 
